@@ -1,7 +1,7 @@
 (* Props/C17.v -- elementwise NumPy operations on signals equal the same operations on their data.  Statements only; the model
    (Model/Ufunc.v) follows Signal.__array_ufunc__ over an abstract array type and an arbitrary ufunc. *)
 From Coq Require Import List Bool Arith.
-From PB Require Import Model.Ufunc Proofs.UfuncProofs.
+From PB Require Import Model.Ufunc Proofs.UfuncProofs Gen.GenUfunc Proofs.UfuncGen.
 Import ListNotations.
 
 (* every ufunc, any number of inputs and outputs, any operand arrangement with at least one signal among the inputs:
@@ -40,6 +40,22 @@ Example C17_witness :   (* np.modf(arr, sig, out=(None, sig2)) style: two output
                  RSig nat {| s_id := 9; s_cls := 1; s_meta := 5; s_data := 12 |}].
 Proof. reflexivity. Qed.
 
+(* tie to the source by translation (T10): the refusal test, the reference signal (first signal among the inputs, else self) and the
+   wrapping rule (a fresh signal like the reference exactly where no destination was given) are GENERATED from Signal.__array_ufunc__ on
+   this run - its remaining statements (unwrapping, the call handing out= and **kwargs on, the relays) are pinned as syntax trees *)
+Theorem C17_generated : forall (A : Type) (ufunc : list A -> list A) (m : method) (is_matmul : bool)
+    (inputs : list (operand A)) (out : list (option (operand A))),
+  array_ufunc A ufunc m is_matmul inputs out =
+  if gen_refused (match m with MCall => true | _ => false end) is_matmul then NotImplemented A
+  else match first_sig A (inputs ++ flat_map (fun o => match o with Some x => [x] | None => [] end) out) with
+       | None => NotImplemented A
+       | Some self =>
+           let ref := gen_ref A inputs self in
+           Results A (map (fun p => gen_wrap A ref (fst p) (snd p)) (combine (ufunc (map (unwrap A) inputs)) out))
+       end.
+Proof. exact array_ufunc_generated. Qed.
+
 Print Assumptions C17_results.
 Print Assumptions C17_refused.
 Print Assumptions C17_inplace_chain.
+Print Assumptions C17_generated.
